@@ -44,6 +44,7 @@ enum {
     CF_DUMP,              /* bitmask HX_DUMP_* */
     CF_MEM_SAMPLES,       /* >0: sample live library heap bytes at call boundaries, keep every n-th sample */
     CF_STRICT_RAW,        /* well-formed input: raw *_HEADER_DATA / *_TRAILER_DATA must not follow their side's COMPLETE callback */
+    CF_TX_CFG,            /* install an application-owned copy of the configuration for every transaction (htp_tx_set_config, shared) */
     CF__N = 40
 };
 
